@@ -367,6 +367,10 @@ func genCodecWF(seed int64, n int, tier string, w *bufio.Writer) { genCodecWFx(s
 func genCodecWFx(seed int64, n int, tier string, w *bufio.Writer, builds bool) {
 	g := &cgen{r: rand.New(rand.NewSource(seed)), w: w, tier: tier}
 	g.emit("reset")
+	// every varint boundary of the remaining length, also the ones whose packets are too large for an op line
+	for _, rl := range []int{126, 127, 128, 129, 16382, 16383, 16384, 16385, 2097150, 2097151, 2097152, 2097153} {
+		g.emit("biglen %d", rl)
+	}
 	for g.n < n {
 		t := g.anyType()
 		rc := g.record(t)
